@@ -22,6 +22,13 @@ CLAIMED = {
    design="DESIGN.md §3 C03",
    note=BASE_NOTE + "PARTIAL: image-level lift not yet proved in Coq (same layout argument as C01).",
    technique="Coq proof (pixel-level) + differential correspondence + spec oracle (alpha-equivalence)"),
+ "C14": dict(
+   text="Machine-checked (Properties/C14.v): the COMPLETE decision table of preprocess_chunks (what happens to the iCCP chunk and which switches are turned off) as an equation, and its corollaries in the words of the property: "
+        "ICC kept (as is or recompressed) => grayscale conversion off; sRGB-tagged => conversion only if stripping enabled; replacement by sRGB only if stripping enabled, sRGB kept and profile recognised, with intent = byte 67; dropped for an existing sRGB only under the same policy condition; "
+        "recompressed profile inflates to identical bytes (zlib oracle); a gray<->colour move leaves no sRGB/iCCP. The profile-id and CRC tables are regenerated from headers.rs on every run. Tied by model replay and function-level comparison of the table lookup.",
+   design="DESIGN.md §3 C14",
+   note=BASE_NOTE + "the three CRC-identified known-bad profiles (3 KB each) are covered by the table-lookup correspondence only.",
+   technique="Coq proof (exhaustive case analysis of the decision function) + regenerated constants + model replay + declarative oracle"),
  "C15": dict(
    text="Machine-checked (Properties/C15.v): the scaling function equals round(v/257) on all 16-bit values, that is the unique nearest 8-bit value (no ties), the colour key is rounded the same way, "
         "and every scaled pixel means exactly the rounded samples under the rounded key. The Rust f32 expression is tied to the integer model EXHAUSTIVELY (65536 values) and in every channel position of every 16-bit colour type on each run; "
@@ -29,6 +36,14 @@ CLAIMED = {
    design="DESIGN.md §3 C15",
    note=BASE_NOTE + "f32 arithmetic of rustc is not modelled in Flocq; it is compared exhaustively instead. Scaling belongs to the bit-depth class: with bit-depth changes disabled (C08) nothing is scaled. Image-level lift as in C01 (partial).",
    technique="Coq proof (lia over all 16-bit values) + exhaustive correspondence + spec oracle"),
+ "C02": dict(
+   text="Machine-checked (Properties/C02.v): `output` is the signature followed by the serialisation of an explicit chunk sequence; the specification's strict container parser (lengths, CRC over type+data, IEND last, nothing after) "
+        "accepts it and reads back exactly that sequence, for every PngData with well-formed chunk names; the sequence is IHDR(13 bytes from the header) … single IDAT … IEND with PLTE/tRNS synthesised from the header before IDAT; CRC-32 fits 32 bits. "
+        "Every output of every run (PNG, chunk-rich, APNG; all options incl. lossy, zopfli, force, strip) is validated by a strict validator written from the specification and decoded by the extracted spec; a constraint counts only if the input satisfied it.",
+   design="DESIGN.md §3 C02",
+   note=BASE_NOTE + "PARTIAL: validity of the IDAT zlib stream/size/filter types and palette-index range are consequences of the pipeline composition under the zlib oracle, decided per run by the validator oracle. "
+        "F8 (hIST kept without PLTE) was repaired (fix 2fc6ac2).",
+   technique="Coq proof (serialise/parse round trip by induction over the chunk list; CRC range via log2/lxor bounds) + strict validator oracle"),
  "C04": dict(
    text="Machine-checked on the whole pipeline model, for every oracle environment (any compressor behaviour, any deadline pattern): without force the result of the in-memory call is the input bytes or strictly shorter; "
         "chains with varying options never grow a file; repeated runs reach a byte-level fixed point within length(input) steps. Tied to the code by replaying optimize_from_memory on the model (byte-identical), "
@@ -43,6 +58,13 @@ CLAIMED = {
    design="DESIGN.md §3 C06",
    note=BASE_NOTE + "PARTIAL for the runtime half: interleavings inside libdeflate/zopfli/rayon finer than the two shared-state accesses per trial are exercised, not modelled; compressors are assumed deterministic functions of (deflater, input).",
    technique="Coq proof (invariant over LTS runs by induction on the schedule) + forced-schedule trace validation"),
+ "C07": dict(
+   text="Machine-checked (Properties/C07.v): the policy function is the documented one (the `safe` list equals the list parsed from MANUAL.txt on this run, so the theorem is re-checked against the current source); picture-defining chunks are dispatched before the policy is consulted; "
+        "a stripped chunk leaves no trace in the parser state; a kept chunk is recorded with identical name and payload; the C2PA rule; postprocess_chunks is exactly the documented conditional filter (nothing invented, order kept). "
+        "End to end: model replay on chunk-rich inputs x all policy kinds, and a declarative oracle computing the expected ancillary list of the output.",
+   design="DESIGN.md §3 C07",
+   note=BASE_NOTE + "KNOWN FINDING F9 (listed in known_findings.json): bKGD/hIST that precede other pre-IDAT ancillary chunks are re-emitted after them. When the result is not smaller the input is returned unchanged (C04) and the policy is not applied.",
+   technique="Coq proof (case analysis of the chunk dispatcher; filter characterisation) + model replay + declarative oracle"),
  "C08": dict(
    text="Machine-checked on the pipeline model (Properties/C08.v), for every oracle environment and every setting of the other switches: with bit-depth / colour-type / grayscale changes disabled the emitted image keeps "
         "its bit depth / colour type code / grayness; with palette changes disabled an indexed image that stays indexed keeps its exact palette; 'keep' preserves the interlace flag and a requested mode is the mode of whatever is emitted; "
@@ -51,6 +73,13 @@ CLAIMED = {
    design="DESIGN.md §3 C08",
    note=BASE_NOTE + "the link from the model image header to the IHDR bytes of `output` is by definition of the model's `output` (tied by replay).",
    technique="Coq proof (invariant over the reduction blocks, header-effect lemma per transformation) + model replay"),
+ "C10": dict(
+   text="Machine-checked (Properties/C10.v): recompression preserves number, order and every fcTL field of the frames and replaces frame data only by strictly smaller data; fcTL serialisation/parsing are inverse on all fields; "
+        "sequence numbers written are consecutive; when the policy does not keep all of acTL/fcTL/fdAT they are all ignored (plain PNG). Generated APNGs (0..4 extra frames, split fdAT, default image in/out, sub-rectangles, all colour types, interlaced) x options: "
+        "model replay, structural comparison of input and output, every frame decoded by the extracted specification.",
+   design="DESIGN.md §3 C10",
+   note=BASE_NOTE + "frame pixel equality is decided per run by the oracle (same partial status as C01). F6 was repaired (fix 0e2fef8).",
+   technique="Coq proof (induction over the frame list; byte-level round trip of fcTL) + model replay + per-frame spec decode"),
  "C13": dict(
    text="Machine-checked (Properties/C13.v): the clock is an oracle of the model, so the pipeline theorems hold for every pattern of answers; never-larger under any landing point; the evaluator returns the minimal completed trial "
         "whichever trials were skipped. Tied to the code through the deadline hook: for EVERY k in 0..K (K = consultations of the untimed run) the run with expiry at the k-th check is replayed on the model under the recorded clock, "
